@@ -369,6 +369,60 @@ func (e *aliasEngine) storeInto(fn *ssa.Function, targets, vals rootSet, desc st
 	}
 }
 
+// describeAddrs: what a store through addr writes. A pointer taken out of a local table of field addresses
+// (fields := [...]*uint32{&rr.Serial, &rr.Refresh, ...}; *fields[i] = v) writes one of those fields: every one of them
+// is reported (with a variable index any may be meant; the rules that ask "is field F written" accept that, the rules
+// that ask "is anything else written" see them all).
+func describeAddrs(addr ssa.Value) []string {
+	if ld, ok := addr.(*ssa.UnOp); ok && ld.Op == token.MUL {
+		if ia, ok := ld.X.(*ssa.IndexAddr); ok {
+			if al, ok := ia.X.(*ssa.Alloc); ok && al.Referrers() != nil {
+				var out []string
+				okAll := true
+				var gather func(al *ssa.Alloc, depth int)
+				gather = func(al *ssa.Alloc, depth int) {
+					if depth > 2 || al.Referrers() == nil {
+						return
+					}
+					for _, ref := range *al.Referrers() {
+						switch t := ref.(type) {
+						case *ssa.IndexAddr:
+							if t.Referrers() == nil {
+								continue
+							}
+							for _, r2 := range *t.Referrers() {
+								if st, isSt := r2.(*ssa.Store); isSt && st.Addr == ssa.Value(t) {
+									if fa, isFA := st.Val.(*ssa.FieldAddr); isFA {
+										out = append(out, describeAddr(fa))
+									} else {
+										okAll = false
+									}
+								}
+							}
+						case *ssa.Store:
+							// the literal is built in a temporary and stored whole
+							if t.Addr == ssa.Value(al) {
+								if ld2, isLd := t.Val.(*ssa.UnOp); isLd && ld2.Op == token.MUL {
+									if src, isAl := ld2.X.(*ssa.Alloc); isAl {
+										gather(src, depth+1)
+										continue
+									}
+								}
+								okAll = false
+							}
+						}
+					}
+				}
+				gather(al, 0)
+				if okAll && len(out) > 0 {
+					return out
+				}
+			}
+		}
+	}
+	return []string{describeAddr(addr)}
+}
+
 func describeAddr(addr ssa.Value) string {
 	switch t := addr.(type) {
 	case *ssa.FieldAddr:
@@ -698,7 +752,9 @@ func (e *aliasEngine) analyse(fn *ssa.Function) {
 				if hasRefs(t.Val.Type()) {
 					vals = e.rootsOf(t.Val)
 				}
-				e.storeInto(fn, e.rootsOf(t.Addr), vals, describeAddr(t.Addr), t.Pos(), true)
+				for _, d := range describeAddrs(t.Addr) {
+					e.storeInto(fn, e.rootsOf(t.Addr), vals, d, t.Pos(), true)
+				}
 			case *ssa.MapUpdate:
 				vals := rootSet{}
 				if hasRefs(t.Key.Type()) {
